@@ -296,6 +296,9 @@ func vfMuxMake(scn string) (func(), func(*vsched.Exec) (string, *vsched.Violatio
 				if c.retClock+c.start < c.start+int64(c.timeout) {
 					viol("C13/early-timeout", fmt.Sprintf("caller%d reported TIMED_OUT at %dns, before its timeout %s", i, c.retClock, c.timeout))
 				}
+				if e.EarlyTimers == 0 && cfg.wstall < 0 && cfg.fstall < 0 && cfg.werr < 0 && c.retClock > int64(c.timeout) {
+					viol("C13/late-timeout", fmt.Sprintf("caller%d reported TIMED_OUT %dns after the call although its timeout is %s, no timer fired early and nothing stalled", i, c.retClock, c.timeout))
+				}
 			default:
 				if cfg.werr >= 0 && strings.HasPrefix(c.outcome, "terr") {
 					break // the injected write failure is reported to exactly the caller whose write failed
